@@ -25,13 +25,38 @@ var c03decoders = []string{
 // gzip layer is undone but the whole label disappears, and the client (or backend) receives
 // bytes still coded with the remaining codings and declared as identity.
 func c03Coding(c *core.Ctx) {
+	c03codingRule(c, false)
+	c03codingRule(c, true)
+}
+
+// encoding reader constructors (a content coding is applied)
+var c03encoders = []string{
+	"pkg/util/readers.NewGZipCompressReader",
+	"compress/gzip.NewWriter",
+	"compress/gzip.NewWriterLevel",
+}
+
+// c03codingRule decides R-C03-12 (mirror = false) or its mirror R-C03-13 (mirror = true): a
+// function that APPLIES the gzip coding to an HTTP body (compressing reader) may overwrite the
+// Content-Encoding header with "gzip" (Header.Set) only in states where the message is known
+// to carry no Content-Encoding at all (Get(CE) == "", len(Values(CE)) == 0). A weaker test
+// ("the label does not contain gzip") lets a body that is already coded otherwise — br,
+// deflate, zstd chosen by the backend from the client's Accept-Encoding — be gzipped on top
+// and relabelled "gzip": the receiver undoes gzip and is left with the other coding's bytes
+// declared as identity. (Appending the coding with Header.Add keeps the label truthful and is
+// not constrained.)
+func c03codingRule(c *core.Ctx, mirror bool) {
+	rule, ctors, wantOp := "R-C03-12", c03decoders, "Del"
+	if mirror {
+		rule, ctors, wantOp = "R-C03-13", c03encoders, "Set"
+	}
 	subjects := 0
 	eachFunc(c, func(pkg *packages.Package, fd *ast.FuncDecl) {
 		if strings.HasPrefix(relPkg(pkg.PkgPath), "pkg/util/readers") {
 			return
 		}
 		f := funcOf(pkg, fd)
-		if len(callsTo(f, fd.Body, true, c03decoders...)) == 0 {
+		if len(callsTo(f, fd.Body, true, ctors...)) == 0 {
 			return
 		}
 		sc := newC03scope(f, 2)
@@ -48,8 +73,13 @@ func c03Coding(c *core.Ctx) {
 				for _, call := range calls(g.Body, true) {
 					op, _ := c03hdrOp(f, call)
 					switch {
-					case op == "Del" && len(call.Args) == 1 && isCE(call.Args[0]):
+					case op == wantOp && !mirror && len(call.Args) == 1 && isCE(call.Args[0]):
 						dels = append(dels, call)
+					case op == wantOp && mirror && len(call.Args) == 2 && isCE(call.Args[0]):
+						// the label is overwritten with a constant naming gzip
+						if tv, ok := f.Info.Types[call.Args[1]]; ok && tv.Value != nil && strings.Contains(strings.ToLower(tv.Value.ExactString()), "gzip") {
+							dels = append(dels, call)
+						}
 					case (op == "Get" || op == "Values") && len(call.Args) == 1 && isCE(call.Args[0]):
 						reads = append(reads, call)
 					}
@@ -126,7 +156,9 @@ func c03Coding(c *core.Ctx) {
 			}
 			// renderings of "the label" and the tests made on it
 			var labels []string
+			var labelExprs []ast.Expr
 			for _, r := range reads {
+				labelExprs = append(labelExprs, r)
 				if op, _ := c03hdrOp(f, r); op == "Get" {
 					labels = append(labels, f.Render(r))
 				}
@@ -160,6 +192,7 @@ func c03Coding(c *core.Ctx) {
 				if r := f.Render(id); !seen[r] {
 					seen[r] = true
 					labels = append(labels, r)
+					labelExprs = append(labelExprs, id)
 				}
 			}
 			res := analyze(c, f, flow.Config{NoHavoc: true, Inline: sc.inline()})
@@ -168,31 +201,56 @@ func c03Coding(c *core.Ctx) {
 			}
 			for i, del := range dels {
 				cons := name + sprintf("|Content-Encoding deleted only for the exact label #%d", i+1)
+				if mirror {
+					cons = name + sprintf("|Content-Encoding set to gzip only for an unlabelled body #%d", i+1)
+				}
 				states := res.At[del]
 				if len(states) == 0 {
-					c.Undecide("R-C03-12", cons, pos(c, del), "the deletion is not reached by the analysis")
+					c.Undecide(rule, cons, pos(c, del), "the header operation is not reached by the analysis")
 					continue
 				}
 				var bad, unknown *flow.State
 				why := ""
 				for _, st := range states {
-					exact := false
-					for _, l := range labels {
-						if st.Is("eq:"+l+`=="gzip"`, flow.True) {
-							exact = true
+					good := false
+					if !mirror {
+						for _, l := range labels {
+							if st.Is("eq:"+l+`=="gzip"`, flow.True) {
+								good = true
+							}
+						}
+						for _, x := range exactCalls {
+							if st.Is(f.CallKey(x), flow.True) {
+								good = true
+							}
+						}
+					} else {
+						for _, e := range labelExprs {
+							if c03empty(f, st, e) == flow.True || c03emptyColl(f, st, e) {
+								good = true
+							}
 						}
 					}
-					for _, x := range exactCalls {
-						if st.Is(f.CallKey(x), flow.True) {
-							exact = true
-						}
-					}
-					if exact {
+					if good {
 						continue
 					}
 					isWeak := false
+					if mirror {
+						// the label is known to be something (non-empty), or only known to differ
+						// from "gzip": an existing coding may be overwritten
+						for _, e := range labelExprs {
+							if c03empty(f, st, e) == flow.False {
+								isWeak = true
+							}
+						}
+						for _, l := range labels {
+							if st.Is("eq:"+l+`=="gzip"`, flow.False) {
+								isWeak = true
+							}
+						}
+					}
 					for _, x := range weak {
-						if st.Is(f.CallKey(x), flow.True) {
+						if (!mirror && st.Is(f.CallKey(x), flow.True)) || (mirror && st.Is(f.CallKey(x), flow.False)) {
 							isWeak = true
 						}
 					}
@@ -205,32 +263,50 @@ func c03Coding(c *core.Ctx) {
 						}
 					}
 					switch {
-					case isWeak:
+					case isWeak && !mirror:
 						if bad == nil {
 							bad = st
 							why = "the Content-Encoding header is deleted after the gzip coding was undone although the label is only known to CONTAIN \"gzip\" (substring test), not to be exactly \"gzip\": for `Content-Encoding: deflate, gzip` or repeated Content-Encoding lines only the gzip layer is undone but the whole label disappears — the receiver gets bytes still coded with the other codings, declared as identity"
+						}
+					case isWeak && mirror:
+						if bad == nil {
+							bad = st
+							why = "the body is gzipped and the Content-Encoding header overwritten with \"gzip\" although the message is only known not to be labelled \"gzip\" (or even known to carry a label), not to be unlabelled: a body the backend already coded with br/deflate/zstd is gzipped on top and relabelled \"gzip\" — the receiver undoes gzip and is left with the other coding's bytes declared as identity"
 						}
 					case about:
 						if unknown == nil {
 							unknown = st
 						}
-					default:
+					case !mirror:
 						if bad == nil {
 							bad = st
 							why = "the Content-Encoding header is deleted after the gzip coding was undone without the label having been compared with \"gzip\" on this path: a body labelled with several codings loses its whole label although only the gzip layer was undone"
+						}
+					default:
+						if bad == nil {
+							bad = st
+							why = "the body is gzipped and the Content-Encoding header overwritten with \"gzip\" on a path on which nothing is known about an existing label (e.g. the label has no values matching a gzip test, or is not tested at all): a body the backend already coded with br/deflate/zstd is gzipped on top and relabelled \"gzip\" — the receiver undoes gzip and is left with the other coding's bytes declared as identity"
 						}
 					}
 				}
 				switch {
 				case bad != nil:
-					c.Violate("R-C03-12", cons, pos(c, del), why, witness(bad)...)
+					c.Violate(rule, cons, pos(c, del), why, witness(bad)...)
+				case unknown != nil && !mirror:
+					c.Undecide(rule, cons, pos(c, del), "the label is tested in a way the analysis does not interpret (neither label == \"gzip\" nor a substring test)")
 				case unknown != nil:
-					c.Undecide("R-C03-12", cons, pos(c, del), "the label is tested in a way the analysis does not interpret (neither label == \"gzip\" nor a substring test)")
+					c.Undecide(rule, cons, pos(c, del), "the label is tested in a way the analysis does not interpret (neither an emptiness test nor a substring test)")
+				case !mirror:
+					c.Discharge(rule, cons, pos(c, del), sprintf("%d state(s) reach the deletion, all with the label known to equal \"gzip\"", len(states)))
 				default:
-					c.Discharge("R-C03-12", cons, pos(c, del), sprintf("%d state(s) reach the deletion, all with the label known to equal \"gzip\"", len(states)))
+					c.Discharge(rule, cons, pos(c, del), sprintf("%d state(s) reach the Set, all with the message known to carry no Content-Encoding", len(states)))
 				}
 			}
 		})
 	})
+	if mirror {
+		c.RequireCount(rule, "functions that gzip an HTTP body and overwrite Content-Encoding", subjects, 3)
+		return
+	}
 	c.RequireCount("R-C03-12", "functions that undo the gzip coding of an HTTP body and delete Content-Encoding", subjects, 2)
 }
